@@ -27,6 +27,7 @@ MUTANTS = [
     # ---------------- C09
     ("c09-unsorted-keywords", "C09", [(M + "registry.py", "sorted(keywords)", "keywords")]),
     ("c09-unsorted-files", "C09", [(M + "registry.py", "for file_name in sorted(files):", "for file_name in files:"), (M + "registry.py", "        subdirs.sort()\n", "")]),
+    ("c09-chr-int-limit-reverted", "C09", [(M + "decoders/chr.py", 'int(match.group(1).lstrip(b"0") or b"0")', "int(match.group(1))")]),
     ("c09-hash-in-sort-key", "C09", [(M + "multidecoder.py", "key=lambda t: (t.start, -t.end),", "key=lambda t: (t.start, -t.end, hash(t.value)),")]),
     ("c09-memoised-find-keywords", "C09", [(M + "keyword.py", "def find_keywords(label: str, keywords: Iterable[bytes], data: bytes) -> list[Node]:\n    lower = data.lower()\n    return [",
         "_CACHE: dict = {}\n\n\ndef find_keywords(label: str, keywords: Iterable[bytes], data: bytes) -> list[Node]:\n    k = (label, data)\n    if k not in _CACHE:\n        _CACHE[k] = _find_keywords(label, keywords, data)\n    return _CACHE[k]\n\n\ndef _find_keywords(label: str, keywords: Iterable[bytes], data: bytes) -> list[Node]:\n    lower = data.lower()\n    return [")]),
